@@ -1,13 +1,22 @@
 """C18 -- get_context, parent() and full_name describe the lexical nesting.
 
 spec/Nesting.tla: programs built by actions (def / async def / class / one-line def /
-lambda / comprehension / continuation / comment lines, decorated or not), a token-level
-transcription of Script.get_context + create_context + BaseName.parent +
-get_qualified_names (Design) and a geometric Reference over the scope table.
-Legs: TLC exhaustive Design|=Reference; TLC-emitted cases rendered, checked against CPython
-(tokenize, ast, import + __qualname__, co_qualname) and replayed into the real jedi;
-recorded observations (rendered cases and corpus files with an ast-derived table) judged by
-TLC with Trace_Nesting.tla; binding self-test.
+lambda / comprehension / continuation / comment lines, decorated or not, and NEST items:
+expressions that are trees of list / set / dict comprehensions, generator expressions and
+lambdas nested in one another's element and iterable / default, grown node by node), a
+token-level transcription of Script.get_context + create_context (one CompForContext per
+enclosing comp_for unless the node is in its iterable; lambda contexts) + BaseName.parent
+(the loop that leaves nameless contexts; LambdaName.parent_context) + get_qualified_names
+(Design) and a geometric Reference over the scope table (comprehensions and lambdas are
+transparent; an enclosing lambda may be visited; every Name on the way must be usable).
+Legs: TLC exhaustive Design|=Reference (line-layout space and nest space) + what-if models
+that must fail (sensitivity); TLC-emitted cases rendered, checked against CPython (tokenize,
+ast extents and structural nesting of every name, symtable block nesting, import +
+__qualname__, co_qualname) and replayed into the real jedi (get_context at every token
+boundary; parent() chains of all definitions and references from get_names, of goto results
+and of inferred lambdas); recorded observations (rendered cases, corpus files and random
+nest programs with an ast-derived table) judged by TLC with Trace_Nesting.tla; binding
+self-test.
 """
 import ast
 import io
@@ -23,24 +32,36 @@ META = dict(
     spec='Nesting.tla, Trace_Nesting.tla',
     text='TLC checks exhaustively (all programs of <=N lines over def/async def/class/one-line def/'
          'lambda/comprehension/continuation/comment templates, decorated or not, nesting depth<=D, indent '
-         'unit in Units, every token boundary and prefix column) that the token-level transcription of '
-         'Script.get_context (leaf choice, header special case, create_context header rule, indentation '
-         'walk-up), BaseName.parent and get_qualified_names satisfies the geometric Reference (innermost '
-         'def/class whose body extent contains the position; enclosing bodies of a definition; module path + '
-         '__qualname__); the three repaired get_context defects are switches of the model (constant Fixed; the '
-         'what-if model of the old code must still violate CtxStrict). Emitted cases are rendered; tokenize/ast/import '
-         'validate layout, scope table and __qualname__ (Reference vs CPython); the real get_context / '
-         'parent() / full_name are compared with the Design (drift) and judged by TLC (Trace_Nesting) '
-         'together with corpus files (identifier positions, all definitions) against an ast-derived table.',
+         'unit in Units, every token boundary and prefix column; and all programs of <=3 lines holding an '
+         'expression that is a tree of <=MaxNest list/set/dict comprehensions, generator expressions and '
+         'lambdas nested in element and iterable/default slots, in module/def/class contexts) that the '
+         'token-level transcription of Script.get_context (leaf choice, header special case, create_context '
+         'header rule and comp_for/lambdef contexts, indentation walk-up), BaseName.parent (leaving every '
+         'nameless context, LambdaName.parent_context) and get_qualified_names satisfies the geometric '
+         'Reference (innermost def/class whose body extent contains the position; enclosing bodies of a '
+         'definition or reference -- comprehensions and lambdas transparent, an enclosing lambda may be '
+         'visited, every Name on the way usable; module path + __qualname__); repaired defects and the '
+         'parent() loop are switches of the model (constant Fixed; the what-if models without them must '
+         'violate CtxStrict / ParentOK). Emitted cases are rendered; tokenize/ast/symtable/import validate '
+         'layout, scope table, name nesting and __qualname__ (Reference vs CPython); the real get_context / '
+         'parent() / full_name (names from get_names(references=True), goto, infer) are compared with the '
+         'Design (drift) and judged by TLC (Trace_Nesting) together with corpus files (identifier positions, '
+         'all definitions, names in lambdas / nested comprehensions first) and random nest programs (several '
+         'for/if clauses, generator arguments, walrus, expressions in headers) against an ast-derived table.',
     note='Header positions (decorator line .. colon) tolerate both the enclosing scope and the definition '
          'itself (upstream test_context pins the latter). Positions not on code are predicted but not judged. '
-         'full_name is judged only when every enclosing scope is a class. Trusts TLC, CPython ast/tokenize '
+         'full_name is judged only when every enclosing scope is a class. A lambda that encloses a name may '
+         'appear in its parent() chain (jedi reports it for names in the body, not for its parameters). Known '
+         'findings: parent-chain:lambda-in-class, parent-chain:anonymous-scope-in-header. Trusts TLC, CPython ast/tokenize '
          'and the table builder of this module (cross-checked against the TLA+ layout on every case).',
     technique='TLA+ spec (Design|=Reference) model-checked with TLC; spec->code replay of emitted cases; '
               'code->spec trace validation of recorded get_context/parent/full_name observations',
     design_ref='5/C18')
 
 UNKNOWN = 9999
+UNUSABLE = 9998          # a parent() result whose .name / .type / .line raise
+LAMBASE = 10000          # LAMBASE + k = the k-th lambda of the file
+NEST_KINDS = ('list', 'set', 'dict', 'gen', 'lam')
 
 CFG = '''INIT Init
 NEXT Next
@@ -53,11 +74,18 @@ CONSTANTS
   EmitMod = %d
   EmitRem = %d
   Fixed = {%s}
+  MaxNest = %d
+  NestKinds = {%s}
+  Plain = %s
 %s
 CHECK_DEADLOCK FALSE
 '''
 
-ALL_FIXES = ('AsyncColumn', 'DedentCont', 'LambdaInClass')
+# switches of Nesting.tla that the code under test contains: the three get_context repairs and the
+# `while` of BaseName.parent() that leaves every comprehension context ("CompWhile").  Not in the
+# code (finding parent-chain:lambda-in-class): "LambdaParent".
+ALL_FIXES = ('AsyncColumn', 'DedentCont', 'LambdaInClass', 'CompWhile')
+KNOWN_SWITCHES = ALL_FIXES + ('LambdaParent',)
 
 
 def default_fixed():
@@ -67,14 +95,15 @@ def default_fixed():
     if v is None:
         return ALL_FIXES
     got = tuple(x for x in v.split(',') if x and x != 'none')
-    if set(got) - set(ALL_FIXES):
+    if set(got) - set(KNOWN_SWITCHES):
         raise MachineryError('C18_FIXED: unknown repair in %r' % v)
     return got
 
 INVS = ['CtxOK', 'ParentOK', 'FullNameOK', 'LayoutOK']
 
 
-def write_cfg(ctx, name, items, depth, scopes, extras, units, mod=1, rem=0, invs=INVS, emit=False, fixed=None):
+def write_cfg(ctx, name, items, depth, scopes, extras, units, mod=1, rem=0, invs=INVS, emit=False, fixed=None,
+              nest=0, kinds=NEST_KINDS, plain=False):
     fixed = default_fixed() if fixed is None else fixed
     body = '\n'.join('INVARIANT %s' % i for i in invs)
     if emit:
@@ -82,7 +111,8 @@ def write_cfg(ctx, name, items, depth, scopes, extras, units, mod=1, rem=0, invs
     p = os.path.join(ctx.tmp, name)
     with open(p, 'w') as f:
         f.write(CFG % (items, depth, scopes, extras, ', '.join(map(str, units)), mod, rem,
-                       ', '.join('"%s"' % x for x in fixed), body))
+                       ', '.join('"%s"' % x for x in fixed), nest, ', '.join('"%s"' % x for x in kinds),
+                       'TRUE' if plain else 'FALSE', body))
     return p
 
 
@@ -112,9 +142,40 @@ def render(prog, unit):
             out.append(' ' * (unit * it['x']) + 'uv)')
         elif k == 'cmt':
             out.append(' ' * (unit * it['x']) + '# c')
+        elif k == 'nest':
+            out.append(b + 'v%d = %s' % (i, render_node(it['sh'], 1, i)))
         else:
             raise MachineryError('unknown item kind %r' % k)
     return '\n'.join(out) + '\n'
+
+
+def _child(sh, n, slot):
+    for c, nd in enumerate(sh, 1):
+        if nd['par'] == n and nd['slot'] == slot:
+            return c
+    return 0
+
+
+def render_node(sh, n, i):
+    """Text of node n of a nest of item i (templates of NodeToks in Nesting.tla)."""
+    k = sh[n - 1]['k']
+    var = chr(96 + n) + str(i)
+    ce, ci = _child(sh, n, 'e'), _child(sh, n, 'i')
+    elt = render_node(sh, ce, i) if ce else var
+    itr = render_node(sh, ci, i) if ci else ('df' if k == 'lam' else 'sq')
+    if k == 'lam':
+        return '(lambda %s=%s: %s)' % (var, itr, elt)
+    if k == 'dict':
+        return '{%s: %s for %s in %s}' % (var, elt, var, itr)
+    o, c = {'list': '[]', 'set': '{}', 'gen': '()'}[k]
+    return '%s%s for %s in %s%s' % (o, elt, var, itr, c)
+
+
+def nest_depth(sh):
+    d = {0: 0}
+    for n, nd in enumerate(sh, 1):
+        d[n] = d[nd['par']] + 1
+    return max(d.values())
 
 
 # ---------------------------------------------------------------- CPython oracles
@@ -181,7 +242,7 @@ def scope_table(src, tree=None):
         rows.append({'hl': hl, 'hc': hc, 'kc': kw[1], 'bl': bl, 'bc': bc,
                      'el': node.end_lineno, 'ec': _ccol(lines, node.end_lineno, node.end_col_offset),
                      'cls': isinstance(node, ast.ClassDef), 'asy': isinstance(node, ast.AsyncFunctionDef),
-                     'nm': jutil.enc(node.name), 'npos': list(npos),
+                     'nm': jutil.enc(node.name), 'npos': list(npos), 'first': first,
                      'args': [(a.lineno, _ccol(lines, a.lineno, a.col_offset)) for a in _args(node)]})
     rows.sort(key=lambda r: (r['hl'], r['hc']))
     return rows
@@ -205,9 +266,81 @@ def lambda_extents(src, tree=None):
                   for n in ast.walk(tree) if isinstance(n, ast.Lambda))
 
 
-def tab_event(rows, mods, lams):
+_COMPS = (ast.ListComp, ast.SetComp, ast.DictComp, ast.GeneratorExp)
+
+
+def comp_extents(src, tree=None):
+    tree = tree or ast.parse(src)
+    lines = src.split('\n')
+    return sorted([n.lineno, _ccol(lines, n.lineno, n.col_offset), n.end_lineno,
+                   _ccol(lines, n.end_lineno, n.end_col_offset)]
+                  for n in ast.walk(tree) if isinstance(n, _COMPS))
+
+
+def tab_event(rows, mods, lams, comps=()):
     return {'k': 'tab', 'scopes': [{f: r[f] for f in TAB_FIELDS} for r in rows],
-            'mods': [[jutil.enc(m) for m in mod] for mod in mods], 'lams': lams}
+            'mods': [[jutil.enc(m) for m in mod] for mod in mods], 'lams': lams, 'comps': list(comps)}
+
+
+def ast_name_chains(src, rows, tree=None):
+    """(line, column) of every ast.Name / ast.arg -> (own, chain): the rows of the def/class nodes
+    whose BODY the node is a descendant of, innermost first -- structurally, from the ast (decorators,
+    defaults, annotations, bases belong to the enclosing scope; comprehensions and lambdas are no
+    rows); own = row of the def a parameter belongs to (then chain starts with it)."""
+    tree = tree or ast.parse(src)
+    lines = src.split('\n')
+    by_first = {tuple(r['first']): i for i, r in enumerate(rows, 1)}
+    out = {}
+
+    def pos(n):
+        return (n.lineno, _ccol(lines, n.lineno, n.col_offset))
+
+    def visit(node, chain):
+        if isinstance(node, (ast.FunctionDef, ast.AsyncFunctionDef, ast.ClassDef)):
+            row = by_first[pos(node)]
+            inner = [row] + chain
+            for f, v in ast.iter_fields(node):
+                if f == 'body':
+                    for x in v:
+                        visit(x, inner)
+                elif f == 'args':
+                    for a in _args(node):
+                        out[pos(a)] = (row, inner)
+                        if a.annotation is not None:
+                            visit(a.annotation, chain)
+                    for x in v.defaults + [y for y in v.kw_defaults if y is not None]:
+                        visit(x, chain)
+                else:
+                    for x in (v if isinstance(v, list) else [v]):
+                        if isinstance(x, ast.AST):
+                            visit(x, chain)
+            return
+        if isinstance(node, (ast.Name, ast.arg)):
+            out[pos(node)] = (0, chain)
+        for x in ast.iter_child_nodes(node):
+            visit(x, chain)
+    visit(tree, [])
+    return out
+
+
+def symtable_nesting(src):
+    """name -> names of the enclosing def/class blocks (innermost first) as CPython's symtable nests
+    them, and the number of lambda blocks."""
+    import symtable
+    out, nlam = {}, [0]
+
+    def walk(t, chain):
+        for ch in t.get_children():
+            nm, ty = ch.get_name(), str(ch.get_type())
+            if nm == 'lambda':
+                nlam[0] += 1
+            if ty in ('function', 'class') and nm not in ('lambda', 'listcomp', 'setcomp', 'dictcomp', 'genexpr'):
+                out.setdefault(nm, []).append(chain)
+                walk(ch, [nm] + chain)
+            else:
+                walk(ch, chain)
+    walk(symtable.symtable(src, 'mod.py', 'exec'), [])
+    return out, nlam[0]
 
 
 def import_paths(script, path, mod):
@@ -276,7 +409,13 @@ def imported_qualnames(src, rows):
         for m in ('pk', 'pk.mod'):
             sys.modules.pop(m, None)
         importlib.invalidate_caches()
-        mod = importlib.import_module('pk.mod')
+        try:
+            mod = importlib.import_module('pk.mod')
+        except TypeError as e:
+            # a nest iterating over a lambda at module / class level cannot be executed
+            if 'not iterable' in str(e):
+                return None
+            raise
         out = {}
 
         def walk(ns, prefix):
@@ -301,22 +440,48 @@ def imported_qualnames(src, rows):
 
 # ---------------------------------------------------------------- projections of jedi observations
 def row_of_name(d, by_npos):
-    """jedi Name of a scope -> table row (0 = module, UNKNOWN = not a def/class of the file)."""
+    """jedi Name of a scope -> table row (0 = module, UNKNOWN = not a def/class of the file;
+    LAMBASE + k for the k-th lambda when by_npos carries the lambda starts under ('lam', l, c))."""
     if d is None:
         return UNKNOWN
     if d.type == 'module':
         return 0
-    return by_npos.get((d.line, d.column), UNKNOWN)
+    pos = (d.line, d.column)
+    if d.type == 'function' and d.name == '<lambda>' and ('lam',) + pos in by_npos:
+        return by_npos[('lam',) + pos]
+    return by_npos.get(pos, UNKNOWN)
+
+
+def pos_index(rows, lams=()):
+    by = {tuple(r['npos']): i for i, r in enumerate(rows, 1)}
+    for k, e in enumerate(lams, 1):
+        by[('lam', e[0], e[1])] = LAMBASE + k
+    return by
+
+
+def _usable(p):
+    """Every Name met on the way up must be a usable Name: .name, .type, .line, .column answer."""
+    try:
+        return isinstance(p.name, str) and isinstance(p.type, str) and (p.line is None or p.line >= 0) \
+            and (p.column is None or p.column >= 0)
+    except Exception:
+        return False
 
 
 def chain_of(d, by_npos, limit=60):
+    """Rows of d.parent(), .parent().parent(), ... up to (excluding) the module; UNUSABLE (and stop)
+    for a result that is not a usable Name; UNKNOWN at the end when the walk does not reach the module."""
     out = []
     p = d.parent()
-    while p is not None and p.type != 'module' and len(out) < limit:
+    while p is not None and len(out) < limit:
+        if not _usable(p):
+            out.append(UNUSABLE)
+            return out
+        if p.type == 'module':
+            return out
         out.append(row_of_name(p, by_npos))
         p = p.parent()
-    if p is None:
-        out.append(UNKNOWN)          # the chain must end in the module
+    out.append(UNKNOWN)              # the chain must end in the module
     return out
 
 
@@ -350,11 +515,28 @@ def replay_case(case):
         nm = jutil.dec(case['tab'][d['row'] - 1]['nm'])
         if coq.get(nm) != {jutil.dec(d['qual'])}:
             res['machinery'].append('Qual(%s)=%s but co_qualname=%s' % (nm, jutil.dec(d['qual']), coq.get(nm)))
-        if d['judged']:
+        if imp is None:
+            res['noimport'] = 1
+        elif d['judged']:
             if imp.get(nm) != jutil.dec(d['rfull']):
                 res['machinery'].append('RefFull(%s)=%s but imported=%s' % (nm, jutil.dec(d['rfull']), imp.get(nm)))
         elif nm in imp:
             res['machinery'].append('%s importable by attribute path but not FullJudged' % nm)
+    # Reference vs CPython: the chain of every name (definition or reference) == the def/class nodes of
+    # the ast whose body it descends from; def/class nesting == symtable's block nesting
+    anc = ast_name_chains(src, rows)
+    for n in case['names']:
+        a = anc.get((n['l'], n['c']))
+        if a is None or a[1] != n['rchain']:
+            res['machinery'].append('RefNameChain(%d,%d)=%s but ast says %s' % (n['l'], n['c'], n['rchain'], a))
+    sym, nlam = symtable_nesting(src)
+    rname = {i: jutil.dec(r['nm']) for i, r in enumerate(rows, 1)}
+    for d in case['defs']:
+        want = [rname[x] for x in d['rchain']]
+        if sym.get(rname[d['row']]) != [want]:
+            res['machinery'].append('RefChain(%s)=%s but symtable nests %s' % (rname[d['row']], want, sym.get(rname[d['row']])))
+    if nlam != len(case['lams']):
+        res['machinery'].append('%d lambdas in the model, %d lambda blocks in symtable' % (len(case['lams']), nlam))
     # Reference vs CPython: innermost ast body containing the position
     for p in case['pos']:
         if p['on'] and p['ref'] != ast_ctx(rows, p['l'], p['c']):
@@ -364,12 +546,16 @@ def replay_case(case):
 
     root = work_root()
     s = jutil.script(src, path=os.path.join(root, 'pk', 'mod.py'), proj=jutil.project(root))
-    by_npos = {tuple(r['npos']): i for i, r in enumerate(rows, 1)}
     lams = lambda_extents(src)
     if lams != case['lams']:
         res['machinery'].append('lambda extents differ from ast: %s vs %s' % (case['lams'], lams))
         return res
-    events = [tab_event(rows, [['pk', 'mod']], lams)]
+    comps = comp_extents(src)
+    if comps != case['comps']:
+        res['machinery'].append('comprehension extents differ from ast: %s vs %s' % (case['comps'], comps))
+        return res
+    by_npos = pos_index(rows, lams)
+    events = [tab_event(rows, [['pk', 'mod']], lams, comps)]
     where = [None]
 
     def guard(fn, what, l, c):
@@ -410,7 +596,7 @@ def replay_case(case):
                 dfv = jutil.dec(dd['dfullv'][0]) if dd['dfullv'] else None
                 if d.full_name != dfv:
                     res['drift'].append({'what': 'context full_name', 'row': got, 'design': dfv, 'code': d.full_name})
-    r = jutil.safe(lambda: s.get_names(all_scopes=True, definitions=True, references=False))
+    r = jutil.safe(lambda: s.get_names(all_scopes=True, definitions=True, references=True))
     if r[0] == 'exc':
         res.setdefault('crash', []).append(('get_names', 0, 0, r[2]))
         names = []
@@ -419,6 +605,12 @@ def replay_case(case):
     seen_defs = set()
     dnames = {(n['l'], n['c']): n for n in case['names']}
     seen_names = set()
+    ncls = res['nclasses'] = {}
+
+    def own_of(pos, n):
+        if n['cls'] in ('param', 'aparam'):
+            return [i for i, rw in enumerate(rows, 1) if pos in [tuple(a) for a in rw['args']]][0]
+        return 0
     for d in names:
         pos = (d.line, d.column)
         if pos in by_npos and d.type in ('function', 'class'):
@@ -447,11 +639,53 @@ def replay_case(case):
             if ch != n['dchain']:
                 res['drift'].append({'what': 'name parent chain', 'pos': pos, 'cls': n['cls'],
                                      'design': n['dchain'], 'code': ch})
-            own = 0
-            if n['cls'] in ('param', 'aparam'):
-                own = [i for i, rw in enumerate(rows, 1) if pos in [tuple(a) for a in rw['args']]][0]
-            events.append({'k': 'nchain', 'l': pos[0], 'c': pos[1], 'own': own, 'got': ch})
-            where.append('parent() chain of %s %s at %s' % (n['cls'], d.name, pos))
+            if d.is_definition() != n['def']:
+                res['drift'].append({'what': 'is_definition', 'pos': pos, 'cls': n['cls'], 'design': n['def']})
+            ncls[n['cls']] = ncls.get(n['cls'], 0) + 1
+            events.append({'k': 'nchain', 'l': pos[0], 'c': pos[1], 'own': own_of(pos, n), 'got': ch})
+            where.append('parent() chain of %s %s %s at %s' % ('definition' if n['def'] else 'reference',
+                                                               n['cls'], d.name, pos))
+    # the same names reached by other routes: goto from a reference to a comprehension / lambda /
+    # parameter variable, infer on the variable a lambda is assigned to -- the Name objects come from
+    # filters / values, not from create_name, and their parent() chains must say the same
+    for n in case['names']:
+        if n['cls'] in ('nref', 'nkey', 'celt', 'lbody', 'ibody'):
+            rr = jutil.safe(lambda: s.goto(n['l'], n['c']))
+            if rr[0] == 'exc':
+                res['blocked'] = res.get('blocked', 0) + 1
+                continue
+            for g in rr[1]:
+                pos = (g.line, g.column)
+                tgt = dnames.get(pos)
+                if g.module_path is None or str(g.module_path) != str(s.path) or tgt is None or not tgt['def']:
+                    continue
+                ch = guard(lambda: chain_of(g, by_npos), 'goto.parent', n['l'], n['c'])
+                if ch is None:
+                    continue
+                if ch != tgt['dchain']:
+                    res['drift'].append({'what': 'goto result parent chain', 'from': [n['l'], n['c']], 'pos': pos,
+                                         'design': tgt['dchain'], 'code': ch})
+                ncls['goto:' + tgt['cls']] = ncls.get('goto:' + tgt['cls'], 0) + 1
+                events.append({'k': 'nchain', 'l': pos[0], 'c': pos[1], 'own': own_of(pos, tgt), 'got': ch})
+                where.append('parent() chain of the result %s %s of goto(%d, %d)' % (g.name, pos, n['l'], n['c']))
+    lamstart = {(e[0], e[1]) for e in lams}
+    for i, it in enumerate(prog, 1):
+        if it['k'] == 'lam' or (it['k'] == 'nest' and it['sh'][0]['k'] == 'lam'):
+            vt = [n for n in case['names'] if n['it'] == i and n['cls'] == 'var'][0]
+            rr = jutil.safe(lambda: s.infer(vt['l'], vt['c']))
+            if rr[0] == 'exc':
+                res['blocked'] = res.get('blocked', 0) + 1
+                continue
+            for g in rr[1]:
+                pos = (g.line, g.column)
+                if g.name != '<lambda>' or pos not in lamstart:
+                    continue
+                ch = guard(lambda: chain_of(g, by_npos), 'infer.parent', vt['l'], vt['c'])
+                if ch is None:
+                    continue
+                ncls['infer:lambda'] = ncls.get('infer:lambda', 0) + 1
+                events.append({'k': 'nchain', 'l': pos[0], 'c': pos[1], 'own': 0, 'got': ch})
+                where.append('parent() chain of the lambda %s inferred at (%d, %d)' % (pos, vt['l'], vt['c']))
     if names and (seen_defs != set(range(1, len(rows) + 1)) or seen_names != set(dnames)):
         res['drift'].append({'what': 'get_names misses definitions', 'defs': sorted(seen_defs),
                              'names': sorted(seen_names), 'expected_names': sorted(dnames)})
@@ -491,10 +725,14 @@ def record_file(arg):
 def record_counterexample(src):
     """Observe a TLC counterexample program on the real code (all identifier positions)."""
     root = work_root()
-    return record_source(src, os.path.join(root, 'pk', 'mod.py'), root, ['pk', 'mod'], 0, 0, 0)
+    return record_source(src, os.path.join(root, 'pk', 'mod.py'), root, ['pk', 'mod'], 0, 0, 0, refs=True)
 
 
-def record_source(src, path, proj_root, mod, npos, nnames, seed):
+def _depth(exts, pos):
+    return sum(1 for e in exts if (e[0], e[1]) <= pos < (e[2], e[3]))
+
+
+def record_source(src, path, proj_root, mod, npos, nnames, seed, refs=False):
     import random
     rng = random.Random(seed)
     out = {'path': path, 'events': [], 'where': [], 'skipped': None, 'crash': []}
@@ -523,8 +761,9 @@ def record_source(src, path, proj_root, mod, npos, nnames, seed):
     rng.shuffle(idents)
     idents = sorted(idents[:npos]) if npos else sorted(idents)
     s = jutil.script(src, path=path, proj=jutil.project(proj_root))
-    by_npos = {tuple(r['npos']): i for i, r in enumerate(rows, 1)}
-    events = [tab_event(rows, import_paths(s, path, mod), lambda_extents(src, tree))]
+    lams, comps = lambda_extents(src, tree), comp_extents(src, tree)
+    by_npos = pos_index(rows, lams)
+    events = [tab_event(rows, import_paths(s, path, mod), lams, comps)]
     where = [None]
     for (l, c) in idents:
         r = jutil.safe(lambda: s.get_context(l, c))
@@ -533,7 +772,7 @@ def record_source(src, path, proj_root, mod, npos, nnames, seed):
             continue
         events.append({'k': 'ctx', 'l': l, 'c': c, 'got': row_of_name(r[1], by_npos)})
         where.append('get_context(%d, %d)' % (l, c))
-    r = jutil.safe(lambda: s.get_names(all_scopes=True, definitions=True, references=False))
+    r = jutil.safe(lambda: s.get_names(all_scopes=True, definitions=True, references=refs))
     if r[0] == 'exc':
         out['crash'].append(('get_names', 0, 0, r[2]))
         names = []
@@ -564,7 +803,13 @@ def record_source(src, path, proj_root, mod, npos, nnames, seed):
         elif d.type in ('param', 'statement'):
             others.append(d)
     rng.shuffle(others)
-    for d in (others[:nnames] if nnames else others):
+    if nnames:
+        # names inside a lambda or inside nested comprehensions are always observed (up to 3 * nnames)
+        deep = [d for d in others if _depth(lams, (d.line, d.column)) or _depth(comps, (d.line, d.column)) > 1]
+        ids = set(id(d) for d in deep[:3 * nnames])
+        others = deep[:3 * nnames] + [d for d in others if id(d) not in ids][:nnames]
+    out['deep'] = 0
+    for d in others:
         pos = (d.line, d.column)
         if d.type == 'param' and pos not in argpos and not _is_lambda_param(d):
             continue
@@ -572,6 +817,8 @@ def record_source(src, path, proj_root, mod, npos, nnames, seed):
         if rr[0] == 'exc':
             out['crash'].append(('parent', pos[0], pos[1], rr[2]))
             continue
+        if _depth(comps, pos) > 1 or _depth(lams, pos):
+            out['deep'] += 1
         events.append({'k': 'nchain', 'l': pos[0], 'c': pos[1], 'own': argpos.get(pos, 0) if d.type == 'param' else 0,
                        'got': rr[1]})
         where.append('parent() chain of %s %s at %s' % (d.type, d.name, pos))
@@ -584,6 +831,119 @@ def record_source(src, path, proj_root, mod, npos, nnames, seed):
 def _is_lambda_param(d):
     tn = d._name.tree_name
     return tn is not None and tn.search_ancestor('funcdef', 'lambdef').type == 'lambdef'
+
+
+# ---------------------------------------------------------------- code -> spec: random nest programs
+def gen_program(rng, maxdepth):
+    """A random program: nested def / async def / class blocks whose statements, decorators, defaults and
+    bases are expressions of nested comprehensions (several for / if clauses, generator arguments),
+    lambdas (several parameters, defaults), conditional expressions, calls, walrus targets -- deeper
+    and wider than the bounded model; judged through the ast-derived table by Trace_Nesting."""
+    cnt = [0]
+
+    def fresh(pfx):
+        cnt[0] += 1
+        return '%s%d' % (pfx, cnt[0])
+
+    def atom(vs):
+        return rng.choice(vs) if vs and rng.random() < 0.8 else rng.choice(['sq', 'wv', 'df'])
+
+    def expr(d, vs, infunc):
+        if d <= 0 or rng.random() < 0.12:
+            return atom(vs)
+        k = rng.choice(['list', 'list', 'set', 'dict', 'gen', 'garg', 'lam', 'lam', 'tern', 'call', 'tup'])
+        if k in ('list', 'set', 'dict', 'gen', 'garg'):
+            x = fresh('x')
+            # (no walrus inside an iterable expression: SyntaxError)
+            it = expr(d - 1, vs, False) if rng.random() < 0.5 else atom(vs)
+            inner = vs + [x]
+            tail = ' for %s in %s' % (x, it)
+            if rng.random() < 0.35:
+                tail += ' if %s' % expr(d - 1 if rng.random() < 0.4 else 0, inner, infunc)
+            if rng.random() < 0.3:
+                y = fresh('y')
+                tail += ' for %s in %s' % (y, expr(d - 1 if rng.random() < 0.4 else 0, inner, False))
+                inner = inner + [y]
+                if rng.random() < 0.3:
+                    tail += ' if %s' % atom(inner)
+            e = expr(d - 1, inner, infunc)
+            if infunc and rng.random() < 0.15:
+                e = '(%s := %s)' % (fresh('w'), e)
+            if k == 'dict':
+                return '{%s: %s%s}' % (atom(inner), e, tail)
+            if k == 'garg':
+                return 'fn(%s%s)' % (e, tail)
+            o, c = {'list': '[]', 'set': '{}', 'gen': '()'}[k]
+            return o + e + tail + c
+        if k == 'lam':
+            ps, inner = [], list(vs)
+            for _ in range(rng.randrange(0, 3)):
+                q = fresh('q')
+                ps.append(q + ('=%s' % expr(d - 1 if rng.random() < 0.4 else 0, vs, infunc)
+                               if rng.random() < 0.5 else ''))
+                inner.append(q)
+            # parameters without default first
+            ps.sort(key=lambda x: '=' in x)
+            return '(lambda %s: %s)' % (', '.join(ps), expr(d - 1, inner, infunc))
+        if k == 'tern':
+            return '(%s if %s else %s)' % (expr(d - 1, vs, infunc), atom(vs), expr(d - 1, vs, infunc))
+        if k == 'call':
+            return 'fn(%s, %s)' % (expr(d - 1, vs, infunc), expr(d - 1, vs, infunc))
+        return '(%s, %s)' % (expr(d - 1, vs, infunc), expr(d - 1, vs, infunc))
+
+    out = []
+
+    def block(ind, lvl, vs, infunc, kind):
+        n = rng.randrange(1, 4)
+        for j in range(n):
+            r = rng.random()
+            b = ' ' * ind
+            if lvl < 3 and r < 0.45:
+                if rng.random() < 0.3:
+                    out.append(b + '@dc(%s)' % expr(rng.randrange(0, maxdepth), vs, infunc))
+                if rng.random() < 0.35:
+                    out.append(b + 'class %s(%s):' % (fresh('C'), expr(rng.randrange(0, 3), vs, infunc)))
+                    # names of the enclosing function stay visible, class variables do not matter here
+                    block(ind + 4, lvl + 1, vs, False, 'class')
+                else:
+                    p = fresh('p')
+                    dflt = '=%s' % expr(rng.randrange(0, maxdepth), vs, infunc) if rng.random() < 0.5 else ''
+                    out.append(b + '%sdef %s(%s%s):' % ('async ' if rng.random() < 0.2 else '', fresh('f'), p, dflt))
+                    block(ind + 4, lvl + 1, vs + [p], True, 'def')
+            else:
+                e = expr(rng.randrange(1, maxdepth + 1), vs, infunc)
+                if kind == 'def' and rng.random() < 0.2:
+                    out.append(b + 'return %s' % e)
+                else:
+                    v = fresh('v')
+                    out.append(b + '%s = %s' % (v, e))
+                    vs = vs + [v]
+    block(0, 0, [], False, 'module')
+    return '\n'.join(out) + '\n'
+
+
+def record_generated(arg):
+    seed, maxdepth = arg
+    import random
+    rng = random.Random(seed)
+    src = gen_program(rng, maxdepth)
+    root = work_root()
+    rec = record_source(src, os.path.join(root, 'pk', 'mod.py'), root, ['pk', 'mod'], 80, 0, seed, refs=True)
+    rec['src'] = src
+    # the geometric Reference of the trace spec == the structural nesting of the ast, name by name
+    if not rec['skipped']:
+        rows = scope_table(src)
+        anc = ast_name_chains(src, rows)
+        rec['names'] = sum(1 for e in rec['events'] if e['k'] == 'nchain')
+        for e in [e for e in rec['events'] if e['k'] == 'nchain']:
+            own, chain = anc.get((e['l'], e['c']), (UNKNOWN, [UNKNOWN]))
+            if own != e['own']:
+                rec['skipped'] = 'parameter ownership differs from the ast at %s' % e
+            rec['events'].append({'k': 'achain', 'l': e['l'], 'c': e['c'], 'own': own, 'got': chain})
+            rec['where'].append('ast nesting of the name at (%d, %d)' % (e['l'], e['c']))
+        rec['maxcomp'] = max([_depth(rec['events'][0]['comps'], (e['l'], e['c'])) for e in rec['events'][1:]
+                              if e['k'] == 'nchain'] or [0])
+    return rec
 
 
 # ---------------------------------------------------------------- trace validation with all failing events
@@ -601,25 +961,90 @@ class _Capture:
         self.ctx.add_tlc(res, label)
 
 
-def judge(ctx, traces, label, chunk=400):
-    """-> (verdicts, rejects) ; rejects = list of (trace index, event index (0-based), why list)."""
-    cap = _Capture(ctx)
-    verdicts = validate_traces('Trace_Nesting', 'Trace_Nesting.cfg', traces, cap, label, chunk=chunk)
-    rejects = []
-    for ci, res in enumerate(cap.results):
-        for p in res.tagged('REJECT'):
-            rejects.append((ci * chunk + p[0] - 1, p[1] - 1, p[2]))
-    # totality: a trace is accepted iff it has no rejected event
-    bad = set(r[0] for r in rejects)
-    for i, v in enumerate(verdicts):
-        if v['accepted'] == (i in bad):
-            raise MachineryError('Trace_Nesting verdicts not total for trace %d: %s' % (i, v))
-    return verdicts, sorted(rejects)
+class _Quiet:
+    """A ctx for one chunk validated in a thread: nothing is written to the real ctx until the join."""
+
+    def __init__(self, ctx):
+        self.tmp = ctx.tmp
+        self.coverage = {'traces_validated_against_impl': 0}
+        self.results = []
+
+    def add_tlc(self, res, label):
+        self.results.append((res, label))
+
+
+# Many JVMs run side by side: the default 13 GC + 12 JIT threads of each make them thrash.  Short runs
+# (trace validation, what-ifs, emission) also stop at the C1 compiler.
+JVM_SHORT = {'JAVA_TOOL_OPTIONS': '-XX:ParallelGCThreads=2 -XX:TieredStopAtLevel=1'}
+JVM_LONG = {'JAVA_TOOL_OPTIONS': '-XX:ParallelGCThreads=4'}
+
+
+def par_tlc(jobs, threads=6):
+    """Run independent TLC jobs [(module, cfg, kwargs)] concurrently (one JVM each); results in order."""
+    from concurrent.futures import ThreadPoolExecutor
+    with ThreadPoolExecutor(max_workers=threads) as ex:
+        futs = [ex.submit(run_tlc, m, c, **kw) for m, c, kw in jobs]
+        return [f.result() for f in futs]
+
+
+def judge_groups(ctx, groups, threads=4, target=30000):
+    """groups = [(label, traces)] -> [(verdicts, rejects)] per group; rejects = list of (trace index,
+    event index (0-based), why list).  The traces of all groups are laid end to end and cut into chunks
+    of about `target` events; the chunks are validated by concurrent single-worker TLC processes (a JVM
+    start costs as much as some thousand events: few, large chunks)."""
+    from concurrent.futures import ThreadPoolExecutor
+    flat = [(g, i, t) for g, (label, traces) in enumerate(groups) for i, t in enumerate(traces)]
+    parts, cur, n = [], [], 0
+    for x in flat:
+        cur.append(x)
+        n += len(x[2])
+        if n >= target:
+            parts.append(cur)
+            cur, n = [], 0
+    if cur:
+        parts.append(cur)
+
+    def one(part):
+        q = _Quiet(ctx)
+        label = ' + '.join(sorted(set(groups[g][0] for g, _, _ in part)))
+        return validate_traces('Trace_Nesting', 'Trace_Nesting.cfg', [t for _, _, t in part], q, label,
+                               chunk=len(part), env=JVM_SHORT), q
+    with ThreadPoolExecutor(max_workers=threads) as ex:
+        done = list(ex.map(one, parts))
+    out = [([None] * len(traces), []) for _, traces in groups]
+    for part, (vs, q) in zip(parts, done):
+        for (g, i, _), v in zip(part, vs):
+            out[g][0][i] = v
+        for res, lab in q.results:
+            ctx.add_tlc(res, lab)
+            for p in res.tagged('REJECT'):
+                g, i, _ = part[p[0] - 1]
+                out[g][1].append((i, p[1] - 1, p[2]))
+    for g, (label, traces) in enumerate(groups):
+        ctx.coverage['traces_validated_against_impl'] += len(traces)
+        verdicts, rejects = out[g]
+        # totality: a trace is accepted iff it has no rejected event
+        bad = set(r[0] for r in rejects)
+        for i, v in enumerate(verdicts):
+            if v is None or v['accepted'] == (i in bad):
+                raise MachineryError('Trace_Nesting verdicts not total for trace %d of %s: %s' % (i, label, v))
+        rejects.sort()
+    return out
 
 
 def reject_key(why):
     if why[0] == 'ctx':
         return 'ctx:%s' % why[2] if why[2] != 'other' else 'ctx-%s:other' % why[1]
+    if why[0] == 'parent-chain' and why[1] == 'name':
+        # shape of the failing input: what is wrong / where the name is written
+        code, ncomp, nlam = why[3], why[4], why[5]
+        if code == 'LC':
+            return 'parent-chain:lambda-in-class'
+        if code == 'AH':
+            return 'parent-chain:anonymous-scope-in-header'
+        where = 'in-nested-comprehensions' if ncomp >= 2 else 'in-comprehension' if ncomp == 1 else \
+            'in-lambda' if nlam else 'plain'
+        return 'parent-chain:%s:%s' % ('unusable-parent' if code == 'UN' else 'name', where)
     return '%s:%s' % (why[0], why[1])
 
 
@@ -631,12 +1056,22 @@ def report_rejects(ctx, rejects, traces, wheres, srcs, origin):
         if why[0] == 'ctx':
             desc = '%s answers row %s but the innermost enclosing body is row %s (%s position, shape %s)' % (
                 what, ev['got'], why[3], why[1], why[2])
+        elif why[0] == 'parent-chain' and why[1] == 'name':
+            desc = ('%s is %s (%d = a parent() result that is not a usable Name, %d+k = the k-th lambda), but '
+                    'there are %s lexically enclosing def/class scopes (innermost first: see table); the name is '
+                    'written inside %d comprehension(s) and %d lambda(s)%s') % (
+                what, ev['got'], UNUSABLE, LAMBASE, why[2], why[4], why[5],
+                '; the class(es) around the lambda are left out' if why[3] == 'LC' else
+                '; the name is written in the header of a def/class, which is reported as its parent'
+                if why[3] == 'AH' else '')
         elif why[0] == 'parent-chain':
             desc = '%s is %s, but there are %s lexically enclosing scopes (innermost first: see table)' % (
                 what, ev['got'], why[2])
         elif why[0] == 'full-name':
             desc = '%s is %r, which is not module path + __qualname__ (%d characters) of row %d' % (
                 what, jutil.dec(ev['got'][0]) if ev['got'] else None, why[2], ev['row'])
+        elif why[0] == 'ast-chain':
+            raise MachineryError('Reference differs from the ast nesting on %s: %s\n%s' % (what, ev, srcs[ti]))
         else:
             raise MachineryError('unknown reject %s' % (why,))
         ctx.count('rejected_events')
@@ -650,70 +1085,138 @@ def run(ctx):
     os.environ['C18_TMP'] = ctx.tmp
     scale = float(os.environ.get('C18_SCALE', '1'))
     units = [2, 4, 8]
-    # ---- 1. Design |= Reference, exhaustive
+    fixed = default_fixed()
+    ctx.coverage['modelled_repairs'] = list(fixed)
+    jobs, labels = [], []
+
+    def job(label, cfg, **kw):
+        kw.setdefault('env', JVM_LONG if kw.get('workers', 1) >= 8 else JVM_SHORT)
+        jobs.append(('Nesting', cfg, kw))
+        labels.append(label)
+        return len(jobs) - 1
+    # ---- 1. Design |= Reference, exhaustive: (a) the line-layout space (no nests), (b) the nest space
+    #         (every tree of <= MaxNest anonymous scopes in every small def/class context)
+    #         list / set / generator nodes differ in their brackets only (one branch of the Design), a dict
+    #         node in its key tokens: the quick tier enumerates all trees of <= 3 list / lambda nodes and all
+    #         trees of <= 2 nodes of the other kinds; thorough all trees of <= 3 nodes of every kind and of
+    #         <= 4 list / dict / lambda nodes
+    #         (decorators / async do not matter inside an expression: Plain)
+    nctx = dict(items=3, depth=2, scopes=2, extras=1, units=[4], plain=True)
     if quick:
         bounds = dict(items=4, depth=3, scopes=4, extras=1, units=units)
+        nb = dict(nctx, nest=3, kinds=('list', 'lam'))
+        nb2 = dict(nctx, nest=2, kinds=('set', 'dict', 'gen', 'lam'))
     elif scale < 1:
         bounds = dict(items=4, depth=3, scopes=4, extras=2, units=units)
+        nb = dict(nctx, nest=3, kinds=('list', 'dict', 'lam'))
+        nb2 = dict(nctx, nest=2)
     else:
         bounds = dict(items=5, depth=4, scopes=5, extras=2, units=units)      # 1 281 852 states
+        nb = dict(nctx, nest=4, kinds=('list', 'dict', 'lam'))
+        nb2 = dict(nctx, nest=3)
     if os.environ.get('C18_SKIP_EXHAUSTIVE'):      # development knob (mutation runs): the exhaustive
         bounds = dict(items=3, depth=2, scopes=3, extras=1, units=[4])
-        ctx.notes.append('C18_SKIP_EXHAUSTIVE set: exhaustive run reduced to %s' % bounds)
-    cfg = write_cfg(ctx, 'mc.cfg', invs=['DesignMeetsReference'], **bounds)
-    res = run_tlc('Nesting', cfg, workers=16, timeout=6000)
-    ctx.add_tlc(res, 'Design|=Reference exhaustive %s' % bounds)
+        nb = dict(items=2, depth=1, scopes=1, extras=1, units=[4], nest=2, kinds=('list', 'lam'))
+        nb2 = dict(nb, nest=1)
+        ctx.notes.append('C18_SKIP_EXHAUSTIVE set: exhaustive runs reduced to %s / %s' % (bounds, nb))
+    j_main = job('Design|=Reference exhaustive %s' % bounds,
+                 write_cfg(ctx, 'mc.cfg', invs=['DesignMeetsReference'], **bounds), workers=16, timeout=6000)
+    j_nest = job('Design|=Reference exhaustive, nest space %s' % nb,
+                 write_cfg(ctx, 'mc_nest.cfg', invs=['DesignMeetsReference'], **nb), workers=16, timeout=6000)
+    j_nest2 = job('Design|=Reference exhaustive, nest space %s' % nb2,
+                  write_cfg(ctx, 'mc_nest2.cfg', invs=['DesignMeetsReference'], **nb2), workers=8, timeout=6000)
+    small = dict(items=3, depth=2, scopes=3, extras=1, units=[4], nest=2, kinds=('list', 'lam'))
+    hb = dict(small, nest=0)
+    j_hint = job('separate invariants + scan-hint equivalence %s' % hb,
+                 write_cfg(ctx, 'hint.cfg', invs=['HintOK'] + INVS, **hb), workers=4, timeout=1200)
+
+    # ---- 1b. sensitivity of the model: the what-if models of the OLD code (Fixed without a repair) must
+    #          violate CtxStrict; the what-if model of a parent() that leaves one comprehension context only
+    #          (Fixed without CompWhile) must violate ParentOK; each counterexample program is then observed
+    #          on the real code and judged like any other trace (with the repairs / the loop in the code it
+    #          must be accepted).  CtxLiteral must fail too (HeaderSelf, tolerated by the Reference) and is
+    #          confirmed on the code; ParentStrict must fail while LambdaParent is not repaired, and its
+    #          counterexample observed on the code must be REJECTED with that shape (the known finding).
+    whatifs = [('CtxStrict', tuple(x for x in fixed if x not in ('AsyncColumn', 'DedentCont', 'LambdaInClass')),
+                'old code: no repair'),
+               ('CtxStrict', tuple(x for x in fixed if x != 'DedentCont'), 'without the DedentCont repair'),
+               ('CtxStrict', tuple(x for x in fixed if x != 'LambdaInClass'), 'without the LambdaInClass repair'),
+               ('ParentOK', tuple(x for x in fixed if x != 'CompWhile'),
+                'parent() leaving one comprehension context only'),
+               ('CtxLiteral', fixed, 'HeaderSelf')]
+    if 'LambdaParent' not in fixed:
+        whatifs.append(('ParentStrict', fixed, 'LambdaParent'))
+    j_what = [job('expected counterexample %s, Fixed=%s (%s)' % (inv, list(fx), what),
+                  write_cfg(ctx, 'whatif_%d.cfg' % n, invs=[inv], fixed=fx, **small), workers=2, timeout=1200)
+              for n, (inv, fx, what) in enumerate(whatifs)]
+
+    # ---- 2. case emission (spec -> code): a BFS slice of small programs (single-node nests of every kind
+    #         included), a BFS slice of the nest space, simulation walks through the big space
+    mod = 5 if quick else (67 if scale < 1 else 41)
+    eb = dict(items=3, depth=2, scopes=3, extras=1, units=units) if quick else \
+        dict(items=4, depth=3, scopes=4, extras=2, units=units)
+    eb['nest'] = 1
+    j_emit = job('case emission slice %d mod %d %s' % (ctx.seed % mod, mod, eb),
+                 write_cfg(ctx, 'emit.cfg', mod=mod, rem=ctx.seed % mod, invs=[], emit=True, **eb),
+                 workers=1, timeout=6000)
+    nmod = 37 if quick else (31 if scale < 1 else 211)
+    neb = dict(nctx, nest=3, kinds=('list', 'dict', 'gen', 'lam')) if quick else dict(nctx, nest=3) if scale < 1 \
+        else dict(nctx, nest=4, kinds=('list', 'set', 'dict', 'lam'))
+    j_nemit = job('case emission, nest space, slice %d mod %d %s' % (ctx.seed % nmod, nmod, neb),
+                  write_cfg(ctx, 'emit_nest.cfg', mod=nmod, rem=ctx.seed % nmod, invs=[], emit=True, **neb),
+                  workers=1, timeout=6000)
+    sb = dict(items=7, depth=4, scopes=6, extras=3, units=units, nest=5)
+    nsim = 60 if quick else (250 if scale < 1 else 600)
+    j_sim = job('simulation walks with emission %s' % sb,
+                write_cfg(ctx, 'sim.cfg', mod=1, rem=0, invs=['DesignMeetsReference'], emit=True, **sb),
+                workers=1, timeout=6000, simulate='num=%d' % nsim, depth=10, seed=ctx.seed)
+    ctx.log('running %d TLC jobs concurrently' % len(jobs))
+    results = par_tlc(jobs)
+    for res, label in zip(results, labels):
+        ctx.add_tlc(res, label)
+
+    res = results[j_main]
     if res.violated:
         raise MachineryError('Nesting.tla: %s violated (the design must reproduce the code; known deviations are '
                              'named in the spec):\n%s' % (res.violated, res.trace[-1:]))
     if res.distinct < 5000 and not os.environ.get('C18_SKIP_EXHAUSTIVE'):
         raise MachineryError('vacuity: only %d states' % res.distinct)
-    ctx.coverage['exhaustive'] = True
     ctx.log('exhaustive: %d distinct states, %.0fs' % (res.distinct, res.wall))
+    for j in (j_nest, j_nest2):
+        res = results[j]
+        if res.violated:
+            raise MachineryError('Nesting.tla: %s violated in the nest space:\n%s' % (res.violated, res.trace[-1:]))
+        ctx.log('exhaustive, nest space: %d distinct states, %.0fs' % (res.distinct, res.wall))
+    if results[j_nest].distinct < 1000 and not os.environ.get('C18_SKIP_EXHAUSTIVE'):
+        raise MachineryError('vacuity: only %d states in the nest space' % results[j_nest].distinct)
+    ctx.coverage['exhaustive'] = True
+    ctx.coverage['exhaustive_nest_space'] = [dict(nb, states=results[j_nest].distinct),
+                                             dict(nb2, states=results[j_nest2].distinct)]
+    if results[j_hint].violated:
+        raise MachineryError('Nesting.tla: %s violated on the small configuration' % results[j_hint].violated)
 
-    if False:      # (kept for reference: the items<=4/extras<=2 space is contained in the run above)
-        b2 = dict(items=4, depth=3, scopes=4, extras=2, units=units)
-        r0 = run_tlc('Nesting', write_cfg(ctx, 'mc2.cfg', invs=['DesignMeetsReference'], **b2), workers=16,
-                     timeout=6000)
-        ctx.add_tlc(r0, 'Design|=Reference exhaustive %s' % b2)
-        if r0.violated:
-            raise MachineryError('Nesting.tla: %s violated:\n%s' % (r0.violated, r0.trace[-1:]))
-        ctx.log('exhaustive (two extras): %d distinct states, %.0fs' % (r0.distinct, r0.wall))
-    small = dict(items=3, depth=2, scopes=3, extras=1, units=[4])
-    r1 = run_tlc('Nesting', write_cfg(ctx, 'hint.cfg', invs=['HintOK'] + INVS, **small), workers=4, timeout=1200)
-    ctx.add_tlc(r1, 'separate invariants + scan-hint equivalence %s' % small)
-    if r1.violated:
-        raise MachineryError('Nesting.tla: %s violated on the small configuration' % r1.violated)
-
-    # ---- 1b. sensitivity of the model: the what-if models of the OLD code (Fixed without a repair) must
-    #          violate CtxStrict; each counterexample program is then observed on the real code and judged
-    #          like any other trace (with the repairs in the code it must be accepted).  CtxLiteral must fail
-    #          too (HeaderSelf, tolerated by the Reference) and is confirmed on the code.
-    fixed = default_fixed()
-    ctx.coverage['modelled_repairs'] = list(fixed)
     cex_traces, cex_wheres, cex_srcs = [], [], []
-    whatifs = [('CtxStrict', (), 'old code: no repair'),
-               ('CtxStrict', tuple(x for x in ALL_FIXES if x != 'DedentCont'), 'without the DedentCont repair'),
-               ('CtxStrict', tuple(x for x in ALL_FIXES if x != 'LambdaInClass'), 'without the LambdaInClass repair'),
-               ('CtxLiteral', fixed, 'HeaderSelf')]
-    for n, (inv, fx, what) in enumerate(whatifs):
-        r2 = run_tlc('Nesting', write_cfg(ctx, 'whatif_%d.cfg' % n, invs=[inv], fixed=fx, **small), workers=4,
-                     timeout=1200)
-        ctx.add_tlc(r2, 'expected counterexample %s, Fixed=%s (%s)' % (inv, list(fx), what))
+    lp_trace = None
+    wsrcs = []
+    for (inv, fx, what), j in zip(whatifs, j_what):
+        r2 = results[j]
         if not r2.violated or not r2.trace:
             raise MachineryError('%s holds with Fixed=%s: the model lost its sensitivity (%s)' % (inv, list(fx), what))
         st = r2.trace[-1]['vars']
-        src = render(st['prog'], st['unit'])
+        wsrcs.append(render(st['prog'], st['unit']))
+    # observed in forked workers: the parent must not own a jedi helper subprocess before pmap forks
+    wrecs = jutil.pmap(record_counterexample, wsrcs)
+    jutil.check_worker_errors(wrecs)
+    for (inv, fx, what), src, rec in zip(whatifs, wsrcs, wrecs):
         ctx.coverage.setdefault('whatif_counterexamples', []).append({'invariant': inv, 'Fixed': list(fx), 'source': src})
-        # observed in forked workers: the parent must not own a jedi helper subprocess before pmap forks
-        rec = jutil.pmap(record_counterexample, [src] * 4, procs=4)[0]
-        jutil.check_worker_errors([rec])
         if rec['skipped'] or rec['crash']:
             raise MachineryError('cannot observe counterexample of %s: %s' % (inv, rec))
-        if inv == 'CtxStrict':
+        if inv in ('CtxStrict', 'ParentOK'):
             cex_traces.append(rec['events'])
             cex_wheres.append(rec['where'])
             cex_srcs.append(src)
+        elif inv == 'ParentStrict':
+            lp_trace = (rec, src)
         else:
             # HeaderSelf on the real code: some def/class name position answers the definition itself
             tab = rec['events'][0]['scopes']
@@ -725,40 +1228,38 @@ def run(ctx):
                            'source': src})
             else:
                 ctx.coverage['header_self_confirmed_on_code'] = hs[0]
-    _, rej = judge(ctx, cex_traces, 'Trace_Nesting: what-if counterexamples observed on the real code')
-    report_rejects(ctx, rej, cex_traces, cex_wheres, cex_srcs, 'what-if counterexample (old get_context)')
     ctx.notes.append('AsyncColumn alone shows only on positions that are not on code (on_code covers the rest): '
                      'its absence is detected as drift of the prefix/comment positions in the replay leg')
 
-    # ---- 2. emitted cases -> replay (spec -> code): a BFS slice of small programs + simulation walks
-    mod = 5 if quick else (67 if scale < 1 else 41)
-    eb = dict(items=3, depth=2, scopes=3, extras=1, units=units) if quick else \
-        dict(items=4, depth=3, scopes=4, extras=2, units=units)
-    cfg = write_cfg(ctx, 'emit.cfg', mod=mod, rem=ctx.seed % mod, invs=[], emit=True, **eb)
-    res = run_tlc('Nesting', cfg, workers=1, timeout=6000)
-    ctx.add_tlc(res, 'case emission slice %d mod %d %s' % (ctx.seed % mod, mod, eb))
-    cs = cases(res)
-    sb = dict(items=7, depth=4, scopes=6, extras=3, units=units)
-    nsim = 60 if quick else (250 if scale < 1 else 600)
-    cfg = write_cfg(ctx, 'sim.cfg', mod=1, rem=0, invs=['DesignMeetsReference'], emit=True, **sb)
-    res = run_tlc('Nesting', cfg, workers=1, timeout=6000, simulate='num=%d' % nsim, depth=8, seed=ctx.seed)
-    ctx.add_tlc(res, 'simulation walks with emission %s' % sb)
-    if res.violated:
-        raise MachineryError('Nesting.tla: %s violated in simulation:\n%s' % (res.violated, res.trace[-1:]))
-    sim = cases(res)
+    cs = cases(results[j_emit])
+    ncs = cases(results[j_nemit])
+    if results[j_sim].violated:
+        raise MachineryError('Nesting.tla: %s violated in simulation:\n%s' % (results[j_sim].violated,
+                                                                             results[j_sim].trace[-1:]))
+    sim = cases(results[j_sim])
     seen = set(render(c['prog'], c['unit']) for c in cs)
-    for c in sim:
+    for c in ncs + sim:
         k = render(c['prog'], c['unit'])
         if k not in seen:
             seen.add(k)
             cs.append(c)
     if len(cs) < 300:
         raise MachineryError('too few cases emitted: %d' % len(cs))
-    ctx.log('replaying %d TLC cases (%d positions)' % (len(cs), sum(len(c['pos']) for c in cs)))
+    depths = {}
+    for c in cs:
+        for it in c['prog']:
+            if it['k'] == 'nest':
+                dd = nest_depth(it['sh'])
+                depths[dd] = depths.get(dd, 0) + 1
+    ctx.coverage['nest_depths_replayed'] = depths
+    if not any(d >= 3 for d in depths):
+        raise MachineryError('no nest of depth >= 3 among the emitted cases: %s' % depths)
+    ctx.log('replaying %d TLC cases (%d positions, %d names; nest depths %s)'
+            % (len(cs), sum(len(c['pos']) for c in cs), sum(len(c['names']) for c in cs), depths))
     results = jutil.pmap(replay_case, cs)
     jutil.check_worker_errors(results)
     traces, wheres, srcs = [], [], []
-    classes = {}
+    classes, nclasses = {}, {}
     for c, r in zip(cs, results):
         if r['machinery']:
             raise MachineryError('layout/Reference does not match CPython on\n%s\n%s' % (r['src'], r['machinery'][:3]))
@@ -769,30 +1270,41 @@ def run(ctx):
             ctx.drift(dict(d, source=r['src']))
         for k, n in r['classes'].items():
             classes[k] = classes.get(k, 0) + n
+        for k, n in r['nclasses'].items():
+            nclasses[k] = nclasses.get(k, 0) + n
         ctx.count('replayed_cases')
         ctx.count('replayed_positions', len(c['pos']))
+        ctx.count('replayed_names', len(c['names']))
+        ctx.count('import_oracle_skipped_not_executable', r.get('noimport', 0))
+        ctx.count('goto_infer_calls_blocked', r.get('blocked', 0))
         traces.append(r['events'])
         wheres.append(r['where'])
         srcs.append(r['src'])
-        if len(c['prog']) >= 4:
+        if len(c['prog']) >= 4 or any(it['k'] == 'nest' and len(it['sh']) >= 3 for it in c['prog']):
             ctx.sample({'source': r['src'], 'positions': len(c['pos']),
                         'design_ctx': [(p['l'], p['c'], p['cls'], p['des']) for p in c['pos'] if p['on']][:40],
                         'defs': [{'row': d['row'], 'parents': d['dchain'],
                                   'full_name': jutil.dec(d['dfull'][0]) if d['dfull'] else None}
-                                 for d in c['defs']]}, limit=4)
+                                 for d in c['defs']],
+                        'names': [(n['l'], n['c'], n['cls'], n['dchain']) for n in c['names']][:40]}, limit=6)
     ctx.coverage['position_classes_replayed'] = classes
+    ctx.coverage['name_classes_replayed'] = nclasses
     need = {'kw', 'name', 'aparam', 'dflt', 'ann', 'ret', 'colon', 'base', 'dname', 'async', 'var', 'val',
-            'lbody', 'lparam', 'celt', 'cvar', 'cval', 'ibody', 'prefix', 'comment', 'after'}
+            'lbody', 'lparam', 'celt', 'cvar', 'cval', 'ibody', 'prefix', 'comment', 'after',
+            'nob', 'ncb', 'nop', 'ncp', 'nlk', 'nlp', 'nleq', 'nlc', 'nkey', 'ncol', 'nfor', 'nvar', 'nin',
+            'nref', 'nit'}
     if need - set(classes):
         raise MachineryError('position classes never replayed: %s' % sorted(need - set(classes)))
+    nneed = {'var', 'param', 'aparam', 'lparam', 'cvar', 'nvar', 'nlp', 'dname', 'darg', 'ann', 'dflt', 'ret',
+             'base', 'ibody', 'val', 'cval', 'ldflt', 'lbody', 'celt', 'citer', 'nref', 'nkey', 'nit',
+             'goto:nvar', 'goto:nlp', 'goto:cvar', 'goto:lparam', 'infer:lambda'}
+    if nneed - set(nclasses):
+        raise MachineryError('name classes never observed: %s' % sorted(nneed - set(nclasses)))
     if ctx.coverage['drift']:
         ctx.log('MODEL-DRIFT on %d observations (property judged separately), e.g. %s'
                 % (ctx.coverage['drift'], ctx.coverage['drift_samples'][:1]))
-    ctx.log('judging %d rendered traces (%d events)' % (len(traces), sum(map(len, traces))))
-    _, rejects = judge(ctx, traces, 'Trace_Nesting rendered cases')
-    report_rejects(ctx, rejects, traces, wheres, srcs, 'rendered TLC case')
 
-    # ---- 3. corpus (code -> spec)
+    # ---- 3. corpus and random nest programs (code -> spec)
     files = jutil.corpus_files(limit=30 if quick else (60 if scale < 1 else None), rng=ctx.rng)
     ctx.log('corpus: %d files' % len(files))
     recs = jutil.pmap(record_file, [(f, 150 if quick else (400 if scale < 1 else 800), 100 if quick else 400, ctx.seed + i)
@@ -813,52 +1325,120 @@ def run(ctx):
         csrcs.append(r['path'])
         ctx.count('corpus_events', len(r['events']) - 1)
         ctx.count('corpus_scopes', r['nscopes'])
+        ctx.count('corpus_names_in_lambdas_or_nested_comprehensions', r['deep'])
     ctx.coverage['corpus_files'] = len(ctraces)
     ctx.coverage['corpus_skipped'] = skipped
     if len(ctraces) < (20 if quick else 40):
         raise MachineryError('too few corpus files recorded: %d (%s)' % (len(ctraces), skipped))
-    ctx.log('judging %d corpus traces (%d events)' % (len(ctraces), sum(map(len, ctraces))))
-    _, rejects = judge(ctx, ctraces, 'Trace_Nesting corpus', chunk=40)
-    report_rejects(ctx, rejects, ctraces, cwheres, csrcs, 'corpus file')
-    ctx.notes.append('corpus calls that raise (absent typeshed) are counted as blocked; totality is property C01')
 
-    # ---- 4. binding self-test: corrupted observations must be rejected
+    ngen = 60 if quick else (400 if scale < 1 else 1500)
+    gdepth = 4 if quick else 5
+    grecs = jutil.pmap(record_generated, [(ctx.seed * 100003 + i, gdepth) for i in range(ngen)])
+    jutil.check_worker_errors(grecs)
+    gtraces, gwheres, gsrcs = [], [], []
+    gdeep = {}
+    for r in grecs:
+        if r['skipped']:
+            if r['skipped'] != 'syntax':
+                raise MachineryError('generated program: %s\n%s' % (r['skipped'], r['src']))
+            ctx.count('generated_skipped')
+            continue
+        for cr in r['crash']:
+            ctx.violation('crash:%s:%s' % (cr[0], cr[3]), '%s raised at %s on a generated program' % (cr[0], cr[1:3]),
+                          {'source': r['src'], 'crash': cr})
+        gtraces.append(r['events'])
+        gwheres.append(r['where'])
+        gsrcs.append(r['src'])
+        gdeep[r['maxcomp']] = gdeep.get(r['maxcomp'], 0) + 1
+        ctx.count('generated_names', r['names'])
+    ctx.coverage['generated_programs'] = len(gtraces)
+    ctx.coverage['generated_max_comprehension_depth'] = gdeep
+    if len(gtraces) < ngen * 0.9 or not any(d >= 3 for d in gdeep):
+        raise MachineryError('generated programs: %d of %d usable, comprehension depths %s' % (len(gtraces), ngen, gdeep))
+
+    # ---- 4. TLC judges every recorded trace (Trace_Nesting), concurrently
+    ctx.log('judging %d what-if, %d rendered (%d events), %d corpus (%d events), %d generated (%d events) traces'
+            % (len(cex_traces), len(traces), sum(map(len, traces)), len(ctraces), sum(map(len, ctraces)),
+               len(gtraces), sum(map(len, gtraces))))
+    groups = [('what-if counterexamples observed on the real code', cex_traces),
+              ('ParentStrict counterexample observed on the real code', [lp_trace[0]['events']] if lp_trace else []),
+              ('rendered cases', traces),
+              ('corpus', ctraces),
+              ('generated nest programs', gtraces)]
+    (_, rej), (_, lrej), (_, rrej), (_, crej), (_, grej) = judge_groups(ctx, groups)
+    report_rejects(ctx, rej, cex_traces, cex_wheres, cex_srcs, 'what-if counterexample (old get_context / parent())')
+    if lp_trace is not None:
+        rec, src = lp_trace
+        if not any(reject_key(w) == 'parent-chain:lambda-in-class' for _, _, w in lrej):
+            ctx.drift({'what': 'lambda-in-class parent chain of the Design is not reproduced by the code '
+                               '(repaired? then run with C18_FIXED=...,LambdaParent)', 'source': src})
+        else:
+            ctx.coverage['lambda_parent_in_class_confirmed_on_code'] = src
+        report_rejects(ctx, lrej, [rec['events']], [rec['where']], [src], 'ParentStrict counterexample')
+    report_rejects(ctx, rrej, traces, wheres, srcs, 'rendered TLC case')
+    report_rejects(ctx, crej, ctraces, cwheres, csrcs, 'corpus file')
+    ctx.notes.append('corpus calls that raise (absent typeshed) are counted as blocked; totality is property C01')
+    report_rejects(ctx, grej, gtraces, gwheres, gsrcs, 'generated nest program')
+
+    # ---- 5. binding self-test: corrupted observations must be rejected
     import copy
     bad = []
     for t in traces:
         fulls = [e for e in t if e['k'] == 'full' and e['got']]
         ctxs = [e for e in t if e['k'] == 'ctx' and e['got'] not in (0, UNKNOWN)]
-        if len(t[0]['scopes']) >= 2 and fulls and ctxs and any(e['k'] == 'dchain' for e in t):
+        deep = [e for e in t if e['k'] == 'nchain' and e['got'] and _depth(t[0]['comps'], (e['l'], e['c'])) >= 2]
+        if len(t[0]['scopes']) >= 1 and fulls and ctxs and deep and any(e['k'] == 'dchain' for e in t):
             b1 = copy.deepcopy(t)
             [e for e in b1 if e['k'] == 'ctx' and e['got'] not in (0, UNKNOWN)][0]['got'] = UNKNOWN
             b2 = copy.deepcopy(t)
             [e for e in b2 if e['k'] == 'dchain'][0]['got'].append(1)
             b3 = copy.deepcopy(t)
             [e for e in b3 if e['k'] == 'full' and e['got']][0]['got'][0][-1] += 1
-            bad = [b1, b2, b3]
+            # a name in nested comprehensions whose parent() is not a usable Name / leaves a scope out /
+            # reports a lambda that does not enclose it
+            pick = lambda b: [e for e in b if e['k'] == 'nchain' and e['got']
+                              and _depth(b[0]['comps'], (e['l'], e['c'])) >= 2][0]
+            b4 = copy.deepcopy(t)
+            pick(b4)['got'] = [UNUSABLE]
+            b5 = copy.deepcopy(t)
+            pick(b5)['got'].pop()
+            b6 = copy.deepcopy(t)
+            pick(b6)['got'].insert(0, LAMBASE + 1 + len(t[0]['lams']))
+            bad = [b1, b2, b3, b4, b5, b6]
             break
     if not bad:
         raise MachineryError('binding self-test: no suitable trace')
     n0 = ctx.coverage['traces_validated_against_impl']
-    vs = validate_traces('Trace_Nesting', 'Trace_Nesting.cfg', bad, ctx, 'binding self-test')
+    vs = validate_traces('Trace_Nesting', 'Trace_Nesting.cfg', bad, ctx, 'binding self-test', env=JVM_SHORT)
     ctx.coverage['traces_validated_against_impl'] = n0
     if any(v['accepted'] for v in vs):
         raise MachineryError('binding self-test: corrupted trace accepted %s' % vs)
-    ctx.coverage['binding_selftest'] = 'corrupted ctx / parent chain / full_name rejected: %s' % [v['why'] for v in vs]
+    if vs[3]['why'][3] != 'UN':
+        raise MachineryError('binding self-test: unusable parent not classified: %s' % vs[3])
+    ctx.coverage['binding_selftest'] = ('corrupted ctx / parent chain / full_name / unusable parent / shortened name '
+                                        'chain / foreign lambda rejected: %s' % [v['why'] for v in vs])
 
     if not quick:
         ctx.coverage['thorough_reductions'] = [
             'exhaustive TLC bounded at items<=5 / depth<=4 / scopes<=5 / extras<=2 / indent unit in {2,4,8} '
             '(1 281 852 states) -- DESIGN 5/C18 asked for <=6 scopes; 6-7 item programs only by simulation walks',
-            'replay: every %dth program of the items<=4/extras<=2 space + %d simulation walks (items<=7, depth<=4, '
-            'scopes<=6), not every enumerated program' % (mod, nsim),
+            'nest space exhaustive at <=%d anonymous scopes (kinds %s) / <=%d (all kinds) per expression in programs '
+            'of <=3 items (indent unit 4, one nest per program); two nests / deeper contexts / 5 nodes only by '
+            'simulation walks' % (nb['nest'], list(nb['kinds']), nb2['nest']),
+            'replay: every %dth program of the items<=4/extras<=2 space, every %dth of the nest space + %d simulation '
+            'walks (items<=7, depth<=4, scopes<=6, nest<=5), not every enumerated program' % (mod, nmod, nsim),
             'corpus: all files, but at most 800 identifier positions (start or inside of the identifier) and 400 '
-            'variable/parameter names per file; all def/class definitions are always observed'] + (
+            'variable/parameter names per file (names in lambdas / nested comprehensions first); all def/class '
+            'definitions are always observed'] + (
             ['C18_SCALE<1: exhaustive at items<=4, 60 corpus files, 400 positions per file'] if scale < 1 else [])
     ctx.assumptions += [
         'header positions (first decorator .. colon) may answer the enclosing scope or the definition itself',
         'positions on whitespace / comments / blank lines are predicted by the Design (drift) but not judged',
         'full_name judged only for definitions all of whose enclosing scopes are classes',
+        'comprehensions, generator expressions and lambdas are transparent for parent(): the chain of a name is '
+        'the chain of the def/class bodies containing it; a lambda that encloses the name may be visited on the '
+        'way (jedi reports it for names in the lambda body, not for the lambda parameters)',
+        'references (get_names(references=True)) are judged like definitions, by the position they are written at',
         'corpus: full_name of definitions in __main__.py files is not judged (no unambiguous import path)',
         'corpus: the module path in full_name may be any dotted path under which the file is importable from '
         'the sys.path the Script works with (jedi picks the shortest)',
